@@ -130,6 +130,38 @@ def build_fsa(aut, model, start):
         d = {v: {ph[lab]: h for lab, h in nb.items()} for v, nb in model.items()}
         return fsa.FSA(d, start_vertices=[start]).rename_generators(
             {p_: lab for lab, p_ in ph.items()}, inplace=False)
+    if route in (6, 7):
+        # built with its labels permuted cyclically, then renamed back by the inverse
+        # permutation - a rename map whose new labels are also old labels - in place (6) or
+        # through the copying form (7)
+        labs = sorted({lab for nb in model.values() for lab in nb}, key=repr)
+        sig = {lab: labs[(i + 1) % len(labs)] for i, lab in enumerate(labs)}     # old -> new
+        inv = {new: old for old, new in sig.items()}
+        d = {v: {inv[lab]: h for lab, h in nb.items()} for v, nb in model.items()}
+        F = fsa.FSA(d, start_vertices=[start])
+        if route == 6:
+            F.rename_generators(dict(sig), inplace=True)
+            return F
+        return F.rename_generators(dict(sig), inplace=False)
+    if route == 8:
+        # edges added pair by pair with elist=True, pairs with equal label lists handed the
+        # SAME list object (the caller builds it once); the remaining labels of each pair are
+        # added one by one afterwards
+        F = fsa.FSA({}, start_vertices=[start])
+        F.add_vertices(list(model))
+        pairs = collections.OrderedDict()
+        for v, nb in model.items():
+            for lab, h in nb.items():
+                pairs.setdefault((v, h), []).append(lab)
+        shared = {}
+        rest = []
+        for (v, h), ls in pairs.items():
+            first = ls[:1]
+            F.add_edges([(v, h, shared.setdefault(tuple(first), list(first)))], elist=True)
+            rest.extend((v, h, l) for l in ls[1:])
+        for e in rest:
+            F.add_edges([e])
+        return F
     if route == 5:
         # the automaton is what is left after deleting a vertex of a larger one; the deleted
         # vertex had edges from (two parallel ones where two labels are free) and to the others
@@ -411,7 +443,8 @@ def automaton_case(draw, labels, max_n=8, dense=False):
     start = draw(st.integers(0, n - 1))
     return dict(n=n, start=start, labels=list(labels), edges=edges,
                 vn=draw(st.sampled_from(["int", "int", "str"])),
-                route=draw(st.sampled_from([0, 0, 1, 2, 3, 3, 4, 5, 5])), hide=draw(st.booleans()))
+                route=draw(st.sampled_from([0, 0, 1, 2, 3, 3, 4, 5, 5, 6, 6, 7, 8, 8])),
+                hide=draw(st.booleans()))
 
 
 def max_len_for(model, cap, hard=7):
